@@ -29,6 +29,41 @@ from edb.schema import types as s_types
 from edb.schema import version as s_ver
 
 
+# ---- deterministic object ids ---------------------------------------------------
+# Objects get uuid1mc() ids (time + random node).  Several orders in the delta machinery follow
+# the ids (iteration over the id-keyed maps), so a history could behave differently from one
+# process to the next and a solver counterexample would not replay.  The harness processes
+# draw ids from a seeded counter instead; the seed is a (symbolic) parameter where it matters.
+
+import hashlib as _hashlib
+import uuid as _uuid
+from edb.common import uuidgen as _uuidgen
+
+_ID = {'seed': 0, 'n': 0}
+
+
+def _uuid1mc():
+    _ID['n'] += 1
+    h = _hashlib.sha1(b'%d:%d' % (_ID['seed'], _ID['n'])).digest()
+    return _uuidgen.UUID(_uuid.UUID(bytes=h[:16], version=1).bytes)
+
+
+_uuidgen.uuid1mc = _uuid1mc
+
+
+def reset_ids(seed: int = 0, start: int = 10 ** 6):
+    _ID['seed'] = seed
+    _ID['n'] = start
+
+
+def id_state():
+    return dict(_ID)
+
+
+def restore_ids(st):
+    _ID.update(st)
+
+
 def Q(s: str) -> sn.QualName:
     return sn.QualName.from_string(s)
 
@@ -212,6 +247,15 @@ def _create_scalar(schema, name):
     return run(schema, cmd, stdmode=True)
 
 
+def _create_abstract_constraint(schema, name):
+    from edb.schema import constraints as s_constr
+    cmd = s_constr.CreateConstraint(classname=Q(name))
+    cmd.set_attribute_value('name', cmd.classname)
+    cmd.set_attribute_value('abstract', True)
+    cmd.set_attribute_value('bases', so.ObjectCollectionShell([], collection_type=so.ObjectList))
+    return run(schema, cmd, stdmode=True)
+
+
 def _create_abstract_ptr(schema, name, cls, ccls, bases):
     cmd = ccls(classname=Q(name))
     cmd.set_attribute_value('name', cmd.classname)
@@ -233,6 +277,8 @@ def std_schema():
 def base_schema():
     global _BASE, _STD
     if _BASE is None:
+        _st = id_state()
+        reset_ids(0, start=5 * 10 ** 8)         # an id range of its own
         s = s_schema.EMPTY_SCHEMA
         s = create_module(s, 'std', stdmode=True)
         s = _create_type_cmd(s, 'std::BaseObject', bases=(), stdmode=True)
@@ -240,6 +286,11 @@ def base_schema():
         s = _create_scalar(s, 'std::str')
         s = _create_scalar(s, 'std::int64')
         s = _create_scalar(s, 'std::bool')
+        s = _create_scalar(s, 'std::uuid')
+        # looked up by the backend delta for every new property (pgsql/delta.py is_sequence_ptr)
+        s = _create_scalar(s, 'std::sequence')
+        # looked up by the EdgeQL compiler when it infers the cardinality of a path (exclusive pointers)
+        s = _create_abstract_constraint(s, 'std::exclusive')
         s = _create_abstract_ptr(s, 'std::property', s_props.Property, s_props.CreateProperty, [])
         s = _create_abstract_ptr(s, 'std::source', s_props.Property, s_props.CreateProperty, ['std::property'])
         s = _create_abstract_ptr(s, 'std::target', s_props.Property, s_props.CreateProperty, ['std::property'])
@@ -252,6 +303,7 @@ def base_schema():
             s, name=sn.UnqualName('__schema_version__'), version=uuid.UUID(int=7), internal=True)
         _STD = s
         _BASE = create_module(s, 'default')
+        restore_ids(_st)
     return _BASE
 
 
